@@ -337,10 +337,10 @@ func main() {
 		}
 		budget := h.TimeoutS
 		if budget == 0 {
-			budget = 600
+			budget = 1200 // ten times what the slowest quick harness needs on an idle 16-core machine
 		}
 		if *tier == "thorough" {
-			budget *= 6
+			budget *= 3
 		}
 		if *budgetS > 0 {
 			budget = *budgetS
